@@ -3,7 +3,7 @@
    state, so the statements below quantify over ALL states (and all fault schedules).  Truthfulness
    for arbitrary states is C03 (clean => intact, counts) and C02 (Repair writes only data matching
    the recorded hashes), both stated for every state; restated here for the record. *)
-From Gopar Require Import Model.Base Model.CRC Model.GoPath Model.FS Model.Par2 Model.Par1 Proofs.Par2Facts Proofs.Par2Verify Proofs.Par2Faults Proofs.Par1Facts Proofs.Par1Safety Proofs.Par2Clean Proofs.Par2Ignore Proofs.Par1Volumes Proofs.Par2Counts Proofs.Par2Reader2.
+From Gopar Require Import Model.Base Model.CRC Model.GoPath Model.FS Model.Par2 Model.Par1 Proofs.Par2Facts Proofs.Par2Verify Proofs.Par2Faults Proofs.Par1Facts Proofs.Par1Safety Proofs.Par2Clean Proofs.Par2Ignore Proofs.Par1Volumes Proofs.Par2Counts Proofs.Par2Reader2 Proofs.Truthful.
 From Coq Require Import List Permutation. Import ListNotations.
 Open Scope N_scope.
 
@@ -109,3 +109,81 @@ Theorem C13_volume_reader_never_out_of_fuel : forall md5 sid b,
   (read_file_vol md5 sid b = RFErr <-> reader_err md5 b (Some sid) false pf_vol0).
 Proof. exact read_file_never_out_of_fuel_vol. Qed.
 Print Assumptions C13_volume_reader_never_out_of_fuel.
+
+(* "ANY RESULT IS TRUTHFUL", beyond the clean verdict - in EVERY state (damaged, truncated, garbage, missing files),
+   no hash premise.  FILES (PAR2): a file is reported intact exactly when content is at its path with the recorded
+   length, MD5 and 16k-MD5; reported missing exactly when nothing is there. *)
+Theorem C13_file_reported_intact_iff : forall md5 ix fs ds st1 k info,
+  load_all md5 ix (io_init fs []) = (Ok ds, st1) -> nth_error (d_rec (ds_dec ds)) k = Some info ->
+  (flags3 (nth k (ds_fis ds) dfi) = (false, false, false) <->
+   exists data, fs_lookup fs (file_path ix (di_name info)) = Some data /\ md5 data = di_hash info /\
+                Par2.hash16k md5 data = di_h16 info /\ N.of_nat (length data) = di_len info).
+Proof. exact F2_reported_intact. Qed.
+Print Assumptions C13_file_reported_intact_iff.
+
+Theorem C13_file_reported_missing_iff : forall md5 ix fs ds st1 k info,
+  load_all md5 ix (io_init fs []) = (Ok ds, st1) -> nth_error (d_rec (ds_dec ds)) k = Some info ->
+  (fi_missing (nth k (ds_fis ds) dfi) = true <-> fs_lookup fs (file_path ix (di_name info)) = None).
+Proof. exact F2_reported_missing. Qed.
+Print Assumptions C13_file_reported_missing_iff.
+
+(* RECOVERY BLOCKS (PAR2): every block of the loaded table is the body of a recovery packet - valid packet MD5, the
+   index's set id, type RecvSlic, that exponent - at a position the reader reaches in one of the listed recovery
+   files, and has the slice size; the table slot is filled exactly for such exponents; and the usable-block count
+   Verify reports is the number of them.  ("At a position the reader reaches", not "at any offset": a hash-valid
+   packet nested in the body of another packet is skipped with it - Truthful.C2_occurs_anywhere_refuted.) *)
+Theorem C13_blocks_genuine : forall md5 ix fs ds st1,
+  load_all md5 ix (io_init fs []) = (Ok ds, st1) ->
+  forall e blk, nth (N.to_nat e) (ds_parity ds) None = Some blk ->
+  block_in_listed_file md5 ix fs (d_setid (ds_dec ds)) e blk /\ N.of_nat (length blk) = d_slice (ds_dec ds).
+Proof. exact B2_blocks_genuine. Qed.
+Print Assumptions C13_blocks_genuine.
+
+Theorem C13_block_count_truthful : forall md5 ix fs ds st1,
+  load_all md5 ix (io_init fs []) = (Ok ds, st1) ->
+  forall L, NoDup L ->
+  (forall e, In e L <-> exists blk, block_in_listed_file md5 ix fs (d_setid (ds_dec ds)) e blk) ->
+  c_pusable (shard_counts ds) = length L.
+Proof. exact C2_pusable_count. Qed.
+Print Assumptions C13_block_count_truthful.
+
+(* what Verify RETURNS (PAR2): the counts are those of the loaded state, with the usable-block count computed from
+   the file map by a plain walk of the listed files, the totals adding up, and the per-file flags being the
+   content comparison *)
+Theorem C13_verify_counts_truthful : forall md5 ix fs c st,
+  par2_verify md5 ix (io_init fs []) = (Ok c, st) ->
+  exists ds, load_all md5 ix (io_init fs []) = (Ok ds, st) /\ c = shard_counts ds /\
+    c_pusable c = length (loaded_exps md5 ix fs (d_setid (ds_dec ds))) /\
+    (c_pusable c + c_punusable c = length (ds_parity ds))%nat /\
+    (c_usable c + c_unusable c = fold_right (fun info acc => length (di_pairs info) + acc) 0 (d_rec (ds_dec ds)))%nat /\
+    map flags3 (ds_fis ds) = map (file_state md5 fs ix) (d_rec (ds_dec ds)).
+Proof. exact par2_verify_counts_truthful. Qed.
+Print Assumptions C13_verify_counts_truthful.
+
+(* PAR1: a file counted usable is at its path with the recorded MD5 and 16k-MD5 (the PAR1 loader does not compare
+   the recorded LENGTH - Truthful.F1_length_not_checked; with the MD5 equal that matters only for an index whose
+   own fields disagree, C19); a volume counted usable is a file at the volume path that parses, carries the
+   index's set hash and its own number, and has the common size; the counts are the numbers of such files. *)
+Theorem C13_par1_file_usable_genuine : forall md5 ix fs s st1 k d,
+  p1_load md5 ix (io_init fs []) = (Ok s, st1) -> nth_error (s_data s) k = Some (Some d) ->
+  exists e, nth_error (s_saved s) k = Some e /\ fs_lookup fs (join2 (dir ix) (e_name e)) = Some d /\
+            md5 d = e_hash e /\ Par1.hash16k md5 d = e_h16 e.
+Proof. exact F1_file_usable. Qed.
+Print Assumptions C13_par1_file_usable_genuine.
+
+Theorem C13_par1_volume_usable_genuine : forall md5 ix fs s st1 k d,
+  p1_load md5 ix (io_init fs []) = (Ok s, st1) -> nth_error (s_parity s) k = Some (Some d) ->
+  exists b v, fs_lookup fs (volume_path ix (N.of_nat (S k))) = Some b /\ read_volume md5 b = Ok v /\
+    v_sethash_stored v = v_sethash_stored (s_vol s) /\ v_number v = N.of_nat (S k) /\ v_data v = d /\
+    length d = s_size s /\ s_size s <> 0%nat.
+Proof. exact B1_volumes_genuine. Qed.
+Print Assumptions C13_par1_volume_usable_genuine.
+
+Theorem C13_par1_verify_counts_truthful : forall md5 ix alldata fs c ok st,
+  par1_verify md5 ix alldata (io_init fs []) = (Ok (c, ok), st) ->
+  exists s, p1_load md5 ix (io_init fs []) = (Ok s, st) /\ c = file_counts s /\
+    fc_usable c = length (filter (file_usable md5 fs ix) (s_saved s)) /\
+    fc_unusable c = length (filter (fun e => negb (file_usable md5 fs ix e)) (s_saved s)) /\
+    fc_pusable c = length (filter (fun k => match vslot md5 fs ix k with Some _ => true | None => false end) (seq 1 (maxvol s))).
+Proof. exact par1_verify_counts_truthful. Qed.
+Print Assumptions C13_par1_verify_counts_truthful.
